@@ -238,3 +238,68 @@ fn with_print(mut body: Vec<Stmt>, d: usize) -> Vec<Stmt> {
     b.append(&mut body);
     b
 }
+
+// ------------------------------------------------ independence of history
+//
+// What an interpolated literal yields, and what is reported when one of its
+// slots fails, depends on that literal and the current bindings only - not on
+// which other literals (same text, same slot expression under another
+// padding, same nesting shape) were evaluated successfully before. Variant 0
+// evaluates such literals first; variant 1 spells the earlier ones as
+// concatenations, line by line the same. Both must print the same, end the
+// same, and report the same position and message.
+//
+// `want`: "value" = the later literal succeeds (other binding, other
+// expression), "runtime" = its slot fails at run time (non-string value,
+// undefined name, operator types), "syntax" = its slot text is malformed.
+pub fn history_cases(property: &str, want: &[&str]) -> Vec<(crate::pred::Case, bool)> {
+    use crate::pred::*;
+    // (literal with hole, the same as a concatenation with hole)
+    let templates: [(&str, &str); 6] = [
+        ("$\"name: ${@}\"", "\"name: \" + (@)"),
+        ("$\"${@}\"", "\"\" + (@)"),
+        ("$\"<${@}> and ${@}!\"", "\"<\" + (@) + \"> and \" + (@) + \"!\""),
+        ("$\"${ $\"<${@}>\" }\"", "\"<\" + (@) + \">\""),
+        ("$\"a${ \"b\" + $\"c${ $\"d${@}\" }\" }\"", "\"a\" + (\"b\" + (\"c\" + (\"d\" + (@))))"),
+        ("$\"é${ $\"[${@}]\" }|${ $\"[${@}]\" }\"", "\"é\" + (\"[\" + (@) + \"]\") + \"|\" + (\"[\" + (@) + \"]\")"),
+    ];
+    let pads = ["", " ", "   "];
+    let later_pads = ["", " ", "   ", "\n        "];
+    // (kind, parameter of the later function, slot expression, argument)
+    let laters: [(&str, &str, &str, &str); 9] = [
+        ("value", "name", "name", "\"zz\""),
+        ("value", "other", "other", "\"zz\""),
+        ("value", "name", "name + other", "\"zz\""),
+        ("runtime", "name", "name", "1"),
+        ("runtime", "other", "name", "\"zz\""),
+        ("runtime", "name", "name + 1", "\"zz\""),
+        ("runtime", "name", "nope(name)", "\"zz\""),
+        ("syntax", "name", "name +", "\"zz\""),
+        ("syntax", "name", ")", "\"zz\""),
+    ];
+    let mut out = vec![];
+    for (lit, cat) in templates {
+        for p1 in pads {
+            for p2 in later_pads {
+                for (kind, param, expr, arg) in laters {
+                    if !want.contains(&kind) {
+                        continue;
+                    }
+                    let hist_lit = lit.replace('@', &format!("{p1}name"));
+                    let hist_cat = cat.replace('@', "name");
+                    let later = lit.replace('@', &format!("{p2}{expr}"));
+                    let mk = |hist: &str| format!(
+                        "other := \"oo\"\nfn show(name) {{\n    return {hist}\n}}\nprint(show(\"a\"))\nprint(show(\"bé\"))\nfn label({param}) {{\n    return {later}\n}}\nprint(label(\"c\"))\nprint(label({arg}))\nprint(\"end\")\n");
+                    // (0, 0) = the same position as variant 0 reports.
+                    out.push((Case{
+                        property: property.to_string(), kind: "history".to_string(),
+                        srcs: vec![mk(&hist_lit).into_bytes(), mk(&hist_cat).into_bytes()],
+                        pred: Pred::Same{same_msg: true, positions: Some(vec![(0, 0), (0, 0)])},
+                        note: format!("{kind}: `{later}` after `{hist_lit}` was evaluated twice, against the same after `{hist_cat}`"),
+                    }, true));
+                }
+            }
+        }
+    }
+    out
+}
